@@ -38,12 +38,15 @@ def handleAdm (fs : List (String × String)) : String :=
   let res := getD fs "res" "?"
   let changed := getD fs "changed" "0" == "1"
   let calls := (getNat fs "delegatecalls").getD 0
+  let userMerges := (getNat fs "usermerges").getD 0
   -- the harness tables: the remote list is version-compatible iff !badvsn
   let exp : Admit := if badv then .versionError else if join && veto then .vetoed else .merged
   let mRes := if exp == .merged then "ok" else "err"
   let bad : Option String :=
     if res == "panic" then some "panic"
     else if exp != .merged && changed then some s!"rejected-exchange-changed-state:{if badv then "versions" else "veto"}"
+    else if exp != .merged && userMerges > 0 then some s!"rejected-exchange-reached-the-user-delegate:{if badv then "versions" else "veto"}"
+    else if exp == .merged && userMerges != 1 then some s!"admitted-exchange-user-state-merged-{userMerges}-times"
     else if exp == .versionError && calls > 0 then some "merge-delegate-consulted-after-version-error"
     else if exp == .merged && !changed then some "admitted-exchange-not-merged"
     else none
